@@ -435,17 +435,28 @@ func checkC16(r *Run) {
 			break
 		}
 		for _, opt := range descgen.CLIOptions {
-			e := m()
-			real := caseFrom(e)
-			real.NoWrite = true
-			real.Name = fmt.Sprintf("%s_real_%s", e.Name, opt)
-			real.Delivery.CLI = map[string]bool{opt: true}
-			d := m()
-			decoy := caseFrom(d)
-			decoy.NoWrite = true
-			decoy.Name = fmt.Sprintf("%s_decoy_%s", d.Name, opt)
-			conflicts = append(conflicts, conflict{real, decoy, opt})
-			all = append(all, real)
+			// the boolean option is exercised in both directions (false over true, true over false)
+			variants := []string{""}
+			if opt == "sort" {
+				variants = []string{"on", "off"}
+			}
+			for _, v := range variants {
+				e := m()
+				d := m()
+				if opt == "sort" {
+					e.Cfg.Sort, e.Cfg.SortSet = v == "on", true
+					d.Cfg.Sort, d.Cfg.SortSet = v == "on", true
+				}
+				real := caseFrom(e)
+				real.NoWrite = true
+				real.Name = fmt.Sprintf("%s_real_%s%s", e.Name, opt, v)
+				real.Delivery.CLI = map[string]bool{opt: true}
+				decoy := caseFrom(d)
+				decoy.NoWrite = true
+				decoy.Name = fmt.Sprintf("%s_decoy_%s%s", d.Name, opt, v)
+				conflicts = append(conflicts, conflict{real, decoy, opt})
+				all = append(all, real)
+			}
 		}
 	}
 	for _, c := range all {
